@@ -71,7 +71,7 @@ def plan_c21(tier, seed):
 
 
 def plan_c22(tier, seed):
-    return conn_runs("c22", tier, seed, 320, 1600, rounds=3, quick_configs=["default", "ignored", "none", "tx_not_empty"])
+    return conn_runs("c22", tier, seed, 320, 1600, rounds=3, quick_configs=["default", "ignored", "strict", "tx_not_empty"])
 
 
 def plan_c23(tier, seed):
@@ -87,6 +87,15 @@ COMMON_ASSUMPTIONS = [
     "set; sleep clock accuracies 1..500 ppm; buffer sizes 61..200) stand for 'all configurations'",
     "geometry tolerance 2 us for the fixed point ppm arithmetic (a window may be up to 2 us narrower than the exact bound)",
 ]
+
+FAMILY_CLASSES = ["scenario_pending_procedure_pull_back", "scenario_pull_back_control", "notify_while_sleeping",
+                  "notify_while_sleeping_to_instant_event", "notify_while_sleeping_with_pending_procedure",
+                  "pull_back_while_procedure_pending"]
+FAMILY_RULE = (" Every 4th scenario (option sets with listen_if_pending_transmit_data) is of the shared pull-back family: latency 1/3/10, "
+               "idle subscribed peripheral, one of the three procedures with its instant 2..latency+3 events ahead (or none: control), "
+               "the application notifies 1..3 times while the peripheral sleeps (right after the sleep began / in the middle / just "
+               "before the planned event incl. inside the radio's safety margin of 100..3000 us), so that planned events - also the "
+               "instant event itself - are pulled back while a procedure is pending.")
 
 SPECS = [
     Spec("C20", "exploration",
@@ -122,14 +131,14 @@ SPECS = [
               "connection_changed / channel sequence / radio_set_phy must switch exactly at the instant with the carried values, the "
               "instant event must be scheduled, writes stored while pending must reach the server within 3 attended events after the "
               "instant. distinct_nontrivial = distinct (procedure, instant class, latency?, lost before?, data while pending, ring "
-              "full?, outcome, small distance).",
+              "full?, outcome, small distance)." + FAMILY_RULE,
          plan=plan_c21,
          floor={"min_evaluations": 20000, "min_distinct": 100,
                 "classes": ["conn_update", "chan_map", "phy_update", "instant_in_the_future", "instant_in_the_past",
                             "instant_is_current_event", "instant_is_next_event", "with_peripheral_latency", "lost_before_reception",
                             "data_received_while_pending", "receive_ring_full_while_pending", "outcome_applied_at_instant",
                             "outcome_instant_passed", "instant_event_listened", "pending_data_processed_after_instant",
-                            "scenario_counter_near_wrap", "scenario_instant_grid"],
+                            "scenario_counter_near_wrap", "scenario_instant_grid"] + FAMILY_CLASSES,
                 "counters": {"connection_events_completed": 20000, "scenarios": 1000}},
          assumptions=COMMON_ASSUMPTIONS + [
              "boundaries left open by the statement are accepted either way: instant = counter+1 (applied at the instant or terminated "
@@ -150,13 +159,13 @@ SPECS = [
               "ppm*elapsed, nominal(+transmit window) + ppm*elapsed] (2 us tolerance), centre at a whole number of intervals, interval "
               "argument; operationally a central inside its accuracy must be heard; closed(0x08) only after >= timeout since the last "
               "anchor; first scheduled event after an invalid CONNECT_IND is a violation. distinct_nontrivial = distinct (window kind, "
-              "combined ppm, elapsed class, skipped?, interval) and (timeout, interval, latency) of supervision timeouts.",
+              "combined ppm, elapsed class, skipped?, interval) and (timeout, interval, latency) of supervision timeouts." + FAMILY_RULE,
          plan=plan_c22,
          floor={"min_evaluations": 50000, "min_distinct": 300,
                 "classes": ["connect_ind_valid", "connect_ind_invalid", "window_after_connect_ind", "window_after_update", "window_steady",
                             "event_heard", "event_missed", "supervision_timeout", "establishment_timeout", "scenario_valid_corner",
                             "scenario_invalid_single_field", "scenario_missed_events", "scenario_supervision", "scenario_update",
-                            "scenario_long_elapsed", "scenario_random"],
+                            "scenario_long_elapsed", "scenario_random"] + FAMILY_CLASSES,
                 "counters": {"connection_events_completed": 10000, "connections_established": 300}},
          assumptions=COMMON_ASSUMPTIONS + [
              "'valid timing parameters' = Core Vol 6 Part B 2.3.3.1/4.5.1-4.5.3 ranges (interval 7.5 ms-4 s, latency <= 499, timeout 100 ms-32 s "
@@ -177,14 +186,14 @@ SPECS = [
               "advances with the counter (mod 37); window centre = counter advance x interval from the last anchor; a heard event's "
               "central event number = number derived from the counter; after a pull-back the replacement is not later, not before an "
               "event that took place, not before now. distinct_nontrivial = distinct (configuration, previous outcome, reported flags, "
-              "pending tx, latency class, counter advance) with latency > 0 or a pull-back.",
+              "pending tx, latency class, counter advance) with latency > 0 or a pull-back." + FAMILY_RULE,
          plan=plan_c23,
          floor={"min_evaluations": 100000, "min_distinct": 150,
                 "classes": ["skipped_events", "skipped_full_latency", "after_timeout", "pull_back", "pull_back_moved_earlier",
                             "listen_condition_listen_always", "listen_condition_unacknowledged_data", "listen_condition_last_received_not_empty",
                             "listen_condition_last_transmitted_not_empty", "listen_condition_last_received_had_more_data",
                             "listen_condition_pending_transmit_data", "listen_condition_error_occured", "scenario_latency_499",
-                            "scenario_latency_1_20", "scenario_latency_0"],
+                            "scenario_latency_1_20", "scenario_latency_0"] + FAMILY_CLASSES,
                 "counters": {"disarmed_events": 20, "disarm_refused": 1, "notify_calls": 200, "configuration_switches": 10,
                              "connection_events_completed": 20000}},
          assumptions=COMMON_ASSUMPTIONS + [
